@@ -439,8 +439,7 @@ verus_unit(
 )
 kani("bits::stack_pop_then_push", ["C16", "C18"], fns=[S + "StackCoder::read_bit", S + "StackCoder::write_bit", S + "StackCoder::into_compressed"],
      text="after n writes, k<=2 reads, one write: export == packing of the remaining bits ++ [y]")
-kani("huffman::f32_n3", ["C15"], kind="bounded", bound="3 symbols, f32 weights (all bit patterns)", timeout=1800, tier="thorough",
-     fns=[HF + "EncoderHuffmanTree::from_float_probabilities", HF + "DecoderHuffmanTree::from_float_probabilities", HF + "NonNanFloatCore"])
+# huffman::f32_n3 (3 symbolic f32 weights, encoder vs decoder tree) does not finish in 60 min: not registered. Float codebooks are not covered (DESIGN 0.5).
 # models::quantizer_search_u8 / _i8 (EVERY support of the symbol type symbolic) never finished (> 15 min each on several tries):
 # not registered.  The search is covered for supports of <= 8 symbols anywhere in the type (quick), the full supports
 # 0..=255 / -128..=127, 100..=255, -10..=20 and the wide signed support -100..=100 (thorough), all with step-shaped CDFs.
